@@ -1,4 +1,38 @@
+//! Engine `xcdr`: properties C09, C10, C11, C12, C39 (XCDR codecs, key hash, type evolution).
+
+mod c09;
+mod features;
+mod golden;
+mod harness;
+mod lower;
+mod rxcdr;
+mod types;
+
+#[global_allocator]
+static A: vcore::alloc::Counting = vcore::alloc::Counting;
+
 fn main() {
-    eprintln!("engine xcdr: not built yet");
-    std::process::exit(2);
+    // no backtrace symbolisation in children that abort (costs ~100 ms each)
+    unsafe { std::env::set_var("RUST_BACKTRACE", "0") };
+    let ctx = vcore::Ctx::from_args();
+    harness::install_panic_hook();
+    match ctx.id.as_str() {
+        "C09" => c09::main(&ctx),
+        "selftest" => match golden::self_test() {
+            Ok(n) => {
+                println!("R-XCDR self-test: {n} golden vectors reproduced");
+                std::process::exit(0)
+            }
+            Err(e) => {
+                for l in e {
+                    println!("{l}");
+                }
+                std::process::exit(2)
+            }
+        },
+        other => {
+            eprintln!("engine xcdr does not serve {other}");
+            std::process::exit(2);
+        }
+    }
 }
